@@ -865,11 +865,40 @@ func registerIntercepts(g *Engine) {
 	}
 	ic["time.AfterFunc"] = func(e *Exec, fn *ssa.Function, a []Value) Value {
 		v, l := newTimer(e, fn)
-		e.afterFuncs = append(e.afterFuncs, afterFunc{l, a[1].(FuncVal)})
+		e.afterFuncs = append(e.afterFuncs, afterFunc{l, a[1].(FuncVal), true})
 		return v
 	}
-	ic["(*time.Timer).Stop"] = func(e *Exec, fn *ssa.Function, a []Value) Value { return e.tb.True() }
-	ic["(*time.Timer).Reset"] = func(e *Exec, fn *ssa.Function, a []Value) Value { return e.tb.True() }
+	// Stop/Reset of an AfterFunc timer disarm/re-arm its callback (and report
+	// whether it was armed, as the real ones do); channel timers keep the
+	// simple model (Stop reports "not yet fired").
+	afterOf := func(e *Exec, p Value) *afterFunc {
+		pv, ok := p.(PtrVal)
+		if !ok || pv.loc == nil {
+			return nil
+		}
+		for i := range e.afterFuncs {
+			if e.afterFuncs[i].timer == pv.loc {
+				return &e.afterFuncs[i]
+			}
+		}
+		return nil
+	}
+	ic["(*time.Timer).Stop"] = func(e *Exec, fn *ssa.Function, a []Value) Value {
+		if af := afterOf(e, a[0]); af != nil {
+			was := af.active
+			af.active = false
+			return e.tb.Bool(was)
+		}
+		return e.tb.True()
+	}
+	ic["(*time.Timer).Reset"] = func(e *Exec, fn *ssa.Function, a []Value) Value {
+		if af := afterOf(e, a[0]); af != nil {
+			was := af.active
+			af.active = true
+			return e.tb.Bool(was)
+		}
+		return e.tb.True()
+	}
 	ic["verif:verifTimerTicks"] = func(e *Exec, fn *ssa.Function, a []Value) Value {
 		e.timerTicks = e.concreteInt(a[0])
 		return nil
@@ -893,12 +922,17 @@ func registerIntercepts(g *Engine) {
 	}
 	// verifFireAfterFuncs: run the callbacks registered with time.AfterFunc (expiry).
 	ic["verif:verifFireAfterFuncs"] = func(e *Exec, fn *ssa.Function, a []Value) Value {
-		fs := e.afterFuncs
-		e.afterFuncs = nil
-		for _, f := range fs {
-			e.callFuncVal(f.fn, nil, e.curFrame)
+		n := 0
+		for i := 0; i < len(e.afterFuncs); i++ { // callbacks may register further timers
+			if !e.afterFuncs[i].active {
+				continue
+			}
+			e.afterFuncs[i].active = false
+			f := e.afterFuncs[i].fn
+			e.callFuncVal(f, nil, e.curFrame)
+			n++
 		}
-		return e.tb.Const(64, uint64(len(fs)))
+		return e.tb.Const(64, uint64(n))
 	}
 
 	// ----- pion/stun crypto: contracts instead of HMAC-SHA1 / random ids -----
@@ -1144,8 +1178,9 @@ func (e *Exec) concreteKey(v Value) string {
 }
 
 type afterFunc struct {
-	timer *Loc
-	fn    FuncVal
+	timer  *Loc
+	fn     FuncVal
+	active bool
 }
 
 type crcRec struct {
